@@ -83,7 +83,7 @@ fn sides(pure: bool, long_field: u128, short_field: u128) -> (u128, u128) {
     }
 }
 
-fn any_view() -> (Box<View>, [(u128, u128); 5], bool) {
+fn any_view(pure: bool) -> (Box<View>, [(u128, u128); 5], bool) {
     let mut view: Box<View> = Box::new(View {
         market: bytemuck::Zeroable::zeroed(),
         meta: MarketMeta {
@@ -96,7 +96,6 @@ fn any_view() -> (Box<View>, [(u128, u128); 5], bool) {
         short_balance: kani::any(),
     });
     let long_mint = Pubkey::new_from_array([1; 32]);
-    let pure: bool = kani::any();
     let short_mint = if pure { long_mint } else { Pubkey::new_from_array([2; 32]) };
     let mut amounts = [(0u128, 0u128); 5];
     let mut i = 0;
@@ -125,20 +124,8 @@ fn add3(a: u128, b: u128, c: u128) -> Option<u128> {
     a.checked_add(b)?.checked_add(c)
 }
 
-//@ prop=C22 tier=quick kind=hold
-//@ enc=ValidateMarketBalances::{validate_market_balance_for_the_given_token, validate_market_balances, validate_market_balances_excluding_the_given_token_amounts}, BaseMarketExt::{expected_min_token_balance_excluding_collateral_amount_for_one_token_side, total_collateral_amount_for_one_token_side}, impl BaseMarket for Market (pool accessors), Pool::{long_amount, short_amount}, Bank::balance_excluding
-//@ bound=none on values: all u128 liquidity / swap-impact / claimable-fee / collateral-sum amounts, all u64 recorded balances and excluded amounts, pure and non-pure markets (mints fixed to two constants); unwind 34 (32-byte key compares)
-//@ stubs=alloc::fmt::format, sol_log, CoreError::name/Display, u128::_fmt/u64::_fmt empty (error texts are not the subject); Bank::balance restated in the harness view type
-//@ args=--default-unwind,34
-#[kani::proof]
-#[kani::stub(alloc::fmt::format, crate::stubs::fmt_format)]
-#[kani::stub(gmsol_store::CoreError::name, crate::stubs::core_error_name)]
-#[kani::stub(<gmsol_store::CoreError as std::fmt::Display>::fmt, crate::stubs::fmt_core_error)]
-#[kani::stub(anchor_lang::solana_program::log::sol_log, crate::stubs::sol_log)]
-#[kani::stub(u128::_fmt, crate::stubs::u128_fmt)]
-#[kani::stub(u64::_fmt, crate::stubs::u64_fmt)]
-fn c22_balances_validate_exactly_when_covered() {
-    let (v, a, pure) = any_view();
+fn balances_validate_exactly_when_covered(pure: bool) {
+    let (v, a, pure) = any_view(pure);
     let (ex_long, ex_short): (u64, u64) = (kani::any(), kani::any());
     let r = v.validate_market_balances(ex_long, ex_short);
     let ok = r.is_ok();
@@ -157,7 +144,90 @@ fn c22_balances_validate_exactly_when_covered() {
             && covered(v.short_balance, ex_short, add3(a[0].1, a[1].1, a[2].1), a[3].1.checked_add(a[4].1))
     };
     assert!(ok == want, "C22: balance validation disagrees with the solvency condition");
-    kani::cover!(ok && pure);
-    kani::cover!(ok && !pure);
-    kani::cover!(!ok && !pure && v.long_balance >= ex_long && v.short_balance >= ex_short);
+    kani::cover!(ok && v.long_balance > 0);
+}
+
+//@ prop=C22 tier=thorough kind=hold
+//@ enc=ValidateMarketBalances::{validate_market_balance_for_the_given_token, validate_market_balances, validate_market_balances_excluding_the_given_token_amounts}, BaseMarketExt::{expected_min_token_balance_excluding_collateral_amount_for_one_token_side, total_collateral_amount_for_one_token_side}, impl BaseMarket for Market (pool accessors), Pool::{long_amount, short_amount}, Bank::balance_excluding
+//@ bound=none on values: all u128 liquidity / swap-impact / claimable-fee / collateral-sum amounts, all u64 recorded balances and excluded amounts, a non-pure market (two distinct constant mints); unwind 34 (32-byte key compares)
+//@ stubs=alloc::fmt::format, sol_log, CoreError::name/Display, u128::_fmt/u64::_fmt empty (error texts are not the subject); Bank::balance restated in the harness view type
+//@ args=--default-unwind,34
+//@ timeout=1500
+#[kani::proof]
+#[kani::stub(alloc::fmt::format, crate::stubs::fmt_format)]
+#[kani::stub(gmsol_store::CoreError::name, crate::stubs::core_error_name)]
+#[kani::stub(<gmsol_store::CoreError as std::fmt::Display>::fmt, crate::stubs::fmt_core_error)]
+#[kani::stub(anchor_lang::solana_program::log::sol_log, crate::stubs::sol_log)]
+#[kani::stub(u128::_fmt, crate::stubs::u128_fmt)]
+#[kani::stub(u64::_fmt, crate::stubs::u64_fmt)]
+fn c22_two_token_market_validates_exactly_when_covered() {
+    balances_validate_exactly_when_covered(false)
+}
+
+//@ prop=C22 tier=experimental kind=hold
+//@ enc=ValidateMarketBalances::{validate_market_balance_for_the_given_token, validate_market_balances, validate_market_balances_excluding_the_given_token_amounts}, BaseMarketExt::{expected_min_token_balance_excluding_collateral_amount_for_one_token_side, total_collateral_amount_for_one_token_side}, impl BaseMarket for Market (pool accessors), Pool::{long_amount, short_amount}, Bank::balance_excluding
+//@ bound=none on values: all u128 liquidity / swap-impact / claimable-fee / collateral-sum amounts, all u64 recorded balances and excluded amounts, a pure (single-token) market; unwind 34 (32-byte key compares)
+//@ stubs=alloc::fmt::format, sol_log, CoreError::name/Display, u128::_fmt/u64::_fmt empty (error texts are not the subject); Bank::balance restated in the harness view type
+//@ args=--default-unwind,34
+//@ timeout=1500
+#[kani::proof]
+#[kani::stub(alloc::fmt::format, crate::stubs::fmt_format)]
+#[kani::stub(gmsol_store::CoreError::name, crate::stubs::core_error_name)]
+#[kani::stub(<gmsol_store::CoreError as std::fmt::Display>::fmt, crate::stubs::fmt_core_error)]
+#[kani::stub(anchor_lang::solana_program::log::sol_log, crate::stubs::sol_log)]
+#[kani::stub(u128::_fmt, crate::stubs::u128_fmt)]
+#[kani::stub(u64::_fmt, crate::stubs::u64_fmt)]
+fn c22_single_token_market_validates_exactly_when_covered() {
+    balances_validate_exactly_when_covered(true)
+}
+
+fn one_token_validates_exactly_when_covered() {
+    let (v, a, _) = any_view(false);
+    let excluded: u64 = kani::any();
+    let long_side: bool = kani::any();
+    let token = if long_side { v.meta.long_token_mint } else { v.meta.short_token_mint };
+    let r = v.validate_market_balance_for_the_given_token(&token, excluded);
+    let ok = r.is_ok();
+    std::mem::forget(r);
+    let want = if long_side {
+        covered(v.long_balance, excluded, add3(a[0].0, a[1].0, a[2].0), a[3].0.checked_add(a[4].0))
+    } else {
+        covered(v.short_balance, excluded, add3(a[0].1, a[1].1, a[2].1), a[3].1.checked_add(a[4].1))
+    };
+    assert!(ok == want, "C22: balance validation disagrees with the solvency condition");
+    kani::cover!(ok && excluded > 0);
+}
+
+//@ prop=C22 tier=quick kind=hold
+//@ enc=ValidateMarketBalances::validate_market_balance_for_the_given_token, BaseMarketExt::{expected_min_token_balance_excluding_collateral_amount_for_one_token_side, total_collateral_amount_for_one_token_side}, impl BaseMarket for Market (pool accessors), Pool::{long_amount, short_amount}, Bank::balance_excluding
+//@ bound=none on values: all u128 liquidity / swap-impact / claimable-fee / collateral-sum amounts, all u64 recorded balances and excluded amounts, either token of a two-token market (two distinct constant mints); unwind 34
+//@ stubs=alloc::fmt::format, sol_log, CoreError::name/Display, u128::_fmt/u64::_fmt empty (error texts are not the subject); Bank::balance restated in the harness view type
+//@ args=--default-unwind,34
+//@ timeout=1500
+#[kani::proof]
+#[kani::stub(alloc::fmt::format, crate::stubs::fmt_format)]
+#[kani::stub(gmsol_store::CoreError::name, crate::stubs::core_error_name)]
+#[kani::stub(<gmsol_store::CoreError as std::fmt::Display>::fmt, crate::stubs::fmt_core_error)]
+#[kani::stub(anchor_lang::solana_program::log::sol_log, crate::stubs::sol_log)]
+#[kani::stub(u128::_fmt, crate::stubs::u128_fmt)]
+#[kani::stub(u64::_fmt, crate::stubs::u64_fmt)]
+fn c22_one_token_validates_exactly_when_covered() {
+    one_token_validates_exactly_when_covered()
+}
+
+//@ prop=C22 tier=experimental kind=hold
+//@ enc=same as c22_one_token_validates_exactly_when_covered (solver experiment: minisat)
+//@ bound=same
+//@ args=--default-unwind,34
+//@ timeout=1500
+#[kani::proof]
+#[kani::solver(minisat)]
+#[kani::stub(alloc::fmt::format, crate::stubs::fmt_format)]
+#[kani::stub(gmsol_store::CoreError::name, crate::stubs::core_error_name)]
+#[kani::stub(<gmsol_store::CoreError as std::fmt::Display>::fmt, crate::stubs::fmt_core_error)]
+#[kani::stub(anchor_lang::solana_program::log::sol_log, crate::stubs::sol_log)]
+#[kani::stub(u128::_fmt, crate::stubs::u128_fmt)]
+#[kani::stub(u64::_fmt, crate::stubs::u64_fmt)]
+fn c22_one_token_minisat() {
+    one_token_validates_exactly_when_covered()
 }
